@@ -43,9 +43,12 @@ Lemma m_msg_some s : stopped s = false -> chan s <> [] ->
   exists s', m_msg s = Some s' /\ stopped s' = false /\ length (chan s') = pred (length (chan s)).
 Proof.
   intros Es Hc. unfold m_msg. rewrite Es. destruct (chan s) as [|m r] eqn:Ec; [congruence|].
-  destruct m as [b|b|n]; eexists; (split; [reflexivity|]).
+  destruct m as [b|b|n|b]; [| | |destruct (first_tid (fst b) (shl s)) as [b'|]]; eexists; (split; [reflexivity|]).
   - split; [exact Es|reflexivity].
   - destruct (record_mmap_fields (set_shl (set_chan s r) (remove_first b (shl s))) b) as (F1 & _ & F3 & _).
+    rewrite F1, F3. split; [exact Es|reflexivity].
+  - split; [exact Es|reflexivity].
+  - destruct (record_mmap_fields (set_shl (set_chan s r) (remove_first b' (shl s))) b') as (F1 & _ & F3 & _).
     rewrite F1, F3. split; [exact Es|reflexivity].
   - split; [exact Es|reflexivity].
 Qed.
